@@ -473,7 +473,7 @@ class Mir:
         if self.enums is not None: return self.enums
         enums = {'Option': ['None', 'Some'], 'Result': ['Ok', 'Err'], 'ControlFlow': ['Continue', 'Break'],
                  'Ordering': ['Less', 'Equal', 'Greater'], 'Bound': ['Included', 'Excluded', 'Unbounded'],
-                 'TryRecvError': ['Empty', 'Disconnected'], 'Poll': ['Ready', 'Pending'], 'RecvTimeoutError': ['Timeout', 'Disconnected'], 'Cow': ['Borrowed', 'Owned']}
+                 'TryRecvError': ['Empty', 'Disconnected'], 'Poll': ['Ready', 'Pending'], 'Accum': ['Replace', 'Add'], 'RecvTimeoutError': ['Timeout', 'Disconnected'], 'Cow': ['Borrowed', 'Owned']}
         for root, dirs, files in os.walk(self.srcroot):
             if '/target' in root or '/.git' in root: continue
             for fnm in files:
